@@ -36,6 +36,15 @@ var Seeds = map[string]hx.Seed{
 		// one more small commit: the freelist is rewritten once the drained pages have been released, which moves it to
 		// the lowest free pages - where the next commit's allocations look first
 		beginW, op("put", P("p"), "b", "s"), commit}},
+	// giant keys (0.7 page each): every leaf and every branch page holding them carries overflow pages, in a top-level and
+	// in a nested bucket
+	"bigkeys": {Name: "bigkeys", Prog: []apix.Op{beginW, op("mkb", nil, "p", ""), {K: "fill", P: P("p"), Key: "G", V: "s", N: 7}, op("put", P("p"), "a", "s"),
+		op("mkb", P("p"), "q", ""), {K: "fill", P: P("p", "q"), Key: "G", V: "s", N: 5}, {K: "seqset", P: P("p", "q"), N: 2}, commit}},
+	// bucket names and keys that collide under naive path flattening: zero bytes, separators, one name a prefix of another
+	"oddnames": {Name: "oddnames", Prog: []apix.Op{beginW, op("mkb", nil, "p", ""), op("mkb", P("p"), "q", ""), op("put", P("p", "q"), "a", "s"), op("put", P("p", "q"), "b", "M"),
+		op("mkb", nil, "p\x00q", ""), op("put", P("p\x00q"), "a", "s"), op("put", P("p\x00q"), "c", "s"), op("mkb", P("p\x00q"), "r", ""), op("put", P("p\x00q", "r"), "d", "s"),
+		op("mkb", nil, "p/q", ""), op("put", P("p/q"), "e", "s"), op("mkb", P("p"), "q\x00", ""), op("put", P("p", "q\x00"), "f", "s"), op("mkb", P("p", "q"), "r", ""), op("put", P("p", "q", "r"), "g", "M"),
+		op("mkb", nil, "pq", ""), op("put", P("pq"), "h\x00", "s"), op("put", P("pq"), "h", "s"), {K: "seqset", P: P("p\x00q"), N: 5}, commit}},
 	"freeruns": {Name: "freeruns", Prog: []apix.Op{beginW, op("mkb", nil, "p", ""), {K: "fill", P: P("p"), Key: "k", V: "M", N: 12}, commit,
 		beginW, op("mkb", nil, "q", ""), {K: "fill", P: P("q"), Key: "k", V: "X", N: 3}, commit,
 		beginW, {K: "drain", P: P("p")}, commit, beginW, op("put", P("p"), "a", "s"), op("delb", nil, "q", ""), commit}},
